@@ -54,8 +54,8 @@ CLAIMED = {
    tech="contract-based deductive verification with ghost counters for proposals/RPCs/notifications, SMT",
    ref="DESIGN.md §4 C11"),
  "C12": dict(
-   text="Proof (unbounded over requests) of the boundary and poison clauses on 78 functions: every RPC handler of the DataManager, DatasetManager and Search services is verified for an ARBITRARY decoded request (no requires on ids, lengths, numbers, maps) - every panic site in it and every precondition of the storage method it calls is an obligation; the storage request paths below them likewise (single and batch writes, fan-out workers, Search/SearchPartitions, catalogue Create/Delete/List/Get). Poison clause: whatever a proposer hands to raft satisfies wfChange / wfDatasetRecord - 16-byte ids everywhere, vectors of the dataset's dimension, non-negative levels, dimension/partition count/replication factor >= 1, a defined metric, one partition record per partition - which is exactly what partition.process / createDataset need to apply without error (their side: 'returns nil on well-formed entries', shared with C04/C14). Memory clause: in the search path every make() sized by a non-constant is bounded by existing data (alloc#proportional, 65536*memcap), so k cannot size an allocation. Oversized batches are refused first.",
-   note="Assumed at handler entry (data-structure invariants, not re-established by a verified constructor): wfCatalogue/wfDatasetFull (newDataset is an assumed contract); protobuf decoding yields non-nil messages without nil elements; the Space enum table has exactly 3 values; peers answer with canonical UUID keys; proto Marshal/Unmarshal round-trips lengths. Panic-freedom INSIDE the index graph code (searchLevel, selectNeighbors*, pruneNeighbors, Insert/Remove link maintenance) and inside the raft host loop is NOT part of this check (owned by C01 / unclaimed) - the index is covered here only through its preconditions and allocation sizes. Not covered: wedging (deadlock), goroutine interleavings, NodesManager RPCs, a huge partition_count in Create (a policy limit, recorded in DESIGN as an observation).",
+   text="Proof (unbounded over requests) of the boundary and poison clauses on 80 functions: every RPC handler of the DataManager, DatasetManager and Search services is verified for an ARBITRARY decoded request (no requires on ids, lengths, numbers, maps) - every panic site in it and every precondition of the storage method it calls is an obligation; the storage request paths below them likewise (single and batch writes, fan-out workers, Search/SearchPartitions, catalogue Create/Delete/List/Get). Poison clause: whatever a proposer hands to raft satisfies wfChange / wfDatasetRecord - 16-byte ids everywhere, vectors of the dataset's dimension, non-negative levels, dimension/partition count/replication factor >= 1, a defined metric, one partition record per partition - which is exactly what partition.process / createDataset need to apply without error (their side: 'returns nil on well-formed entries', shared with C04/C14). Memory clause: in the search path every make() sized by a non-constant is bounded by existing data (alloc#proportional, 65536*memcap), so k cannot size an allocation. Oversized batches are refused first.",
+   note="Assumed at handler entry: the catalogue invariant wfCatalogue (every listed dataset satisfies wfDatasetFull) - established per dataset by the VERIFIED newDataset/newPartition/createDataset for records that Create accepted, kept by induction over catalogue operations (not machine-checked as one theorem); index.NewHnsw's defaults (small configuration constants, empty index) are an assumed contract; protobuf decoding yields non-nil messages without nil elements; the Space enum table has exactly 3 values; peers answer with canonical UUID keys; proto Marshal/Unmarshal round-trips lengths. Panic-freedom INSIDE the index graph code (searchLevel, selectNeighbors*, pruneNeighbors, Insert/Remove link maintenance) and inside the raft host loop is NOT part of this check (owned by C01 / unclaimed) - the index is covered here only through its preconditions and allocation sizes. Not covered: wedging (deadlock), goroutine interleavings, NodesManager RPCs, a huge partition_count in Create (a policy limit, recorded in DESIGN as an observation).",
    tech="contract-based deductive verification: no-panic and precondition push-back to the RPC boundary, proposal well-formedness hooks on proto.Marshal, allocation-size obligations, SMT",
    ref="DESIGN.md §4 C12"),
  "C14": dict(
